@@ -1,4 +1,4 @@
-import DarkluaModel.C08.Sound
+import DarkluaModel.C08.Indep
 /-!
 # C08 — static evaluation never disagrees with real execution: property theorems
 
@@ -170,6 +170,17 @@ theorem pure_sound_partial {E : EvalOps N} (A : Agree N E) (call : CallFn N) (ρ
       σ.tables <+: σ'.tables ∧ σ.closures <+: σ'.closures := by
   have f := ((good E call ρ k env A e σ σ' vs h hr).2 hp).frame
   exact ⟨f.trace, f.globals, f.cells, f.tables, f.closures⟩
+
+/-- Inside `H8`: when `has_side_effects e` is false, the COMPLETE outcome of evaluating `e` — values and
+final state, or the error, or the timeout — is the same for every call handler (how closures and
+closure metamethods run), every external-call oracle and every call-back budget `k ≥ 1` (with budget 1
+no library function can complete and no `__index`/`__call` chain can be followed): evaluation enters no
+closure, no metamethod, no external function and no library function. -/
+theorem pure_sound_independent {E : EvalOps N} (A : Agree N E) (call call' : CallFn N) (ρ ρ' : ExtOracle N)
+    (k k' : Nat) (env : Env N) (e : Expr) (σ : State N)
+    (h : h8 E e = true) (hp : hasSideEffects E false e = false) (hk : 1 ≤ k) (hk' : 1 ≤ k') :
+    evalE call ρ k env e σ = evalE call' ρ' k' env e σ :=
+  indep E call ρ k call' ρ' k' env A hk hk' e σ h hp
 
 /-! ## the full statements are false: witnesses -/
 
